@@ -189,12 +189,9 @@ func (c *reqScn) step(st string) {
 		body := []byte(tag + "|" + strings.Repeat("x", c.nmsg%7*11))
 		fn := c.sendOn(i)
 		s.Call(c.thread(), "send", c.cname(i), []interface{}{"tag", tag}, func() []interface{} {
-			m := mangos.NewMessage(len(body))
+			m := appNew(s, len(body))
 			m.Body = append(m.Body, body...)
-			err := fn(m)
-			if err != nil {
-				m.Free()
-			}
+			err := appSend(s, m, fn)
 			return []interface{}{"r", err}
 		})
 	case "recv":
@@ -205,9 +202,10 @@ func (c *reqScn) step(st string) {
 			if err != nil {
 				return []interface{}{"r", err}
 			}
+			appGot(s, m)
 			tag := string(m.Body)
 			hl := len(m.Header)
-			m.Free()
+			appFree(s, m)
 			return []interface{}{"r", "ok", "tag", tag, "hl", hl}
 		})
 	case "reply":
@@ -290,6 +288,7 @@ func setCtxOpts(set func(string, interface{}) error, o reqCtxOpt) {
 
 func runReq(t *testing.T, cfg reqCfg) sim.Result {
 	return sim.Run(t, 10*time.Second, func(s *sim.S) {
+		defer withLedger(s.Rec)()
 		c := &reqScn{s: s, cfg: cfg, pipes: map[string]*vt.Pipe{}, id2p: map[uint32]string{}}
 		s.Net.Decode = c.decode
 		c.proto = req.NewProtocol()
